@@ -574,6 +574,19 @@ func (e *Env) call(x *Expr) TV {
 			}
 		}
 		sfail("len of %s", a.T.Sort)
+	case "ite":
+		// ite(c, a, b): conditional value (c quantifier-free)
+		c := e.boolBoth(x.Args[0])
+		a := e.Tr(x.Args[1])
+		b := e.Tr(x.Args[2])
+		if a.T.Sort != b.T.Sort {
+			sfail("ite: branches of sorts %s and %s", a.T.Sort, b.T.Sort)
+		}
+		return TV{Ite(c, a.T, b.T), pickTy(a.Ty, b.Ty)}
+	case "wrap64":
+		// wrap64(e): the int64 value of the mathematical integer e (two's complement)
+		a := e.Tr(x.Args[0])
+		return TV{wrapTo(a.T, types.Typ[types.Int64]), nil}
 	case "keyset":
 		// keyset(m): the set of keys of a Go map (empty for the nil map)
 		a := e.Tr(x.Args[0])
